@@ -889,7 +889,28 @@ func (g *gen) genPipeline(level int) *Pipeline {
 				cands = append(cands, c)
 			}
 		}
-		if len(cands) > 0 {
+		// ... or a struct-typed pipeline input is handed on member by member
+		// through `* = self.<input>`
+		var structIns []Param
+		for _, in := range pl.Ins {
+			if in.Type.Kind == KStruct && g.p.Struct(in.Type.Name) != nil {
+				structIns = append(structIns, in)
+			}
+		}
+		if len(structIns) > 0 && g.pct(50) {
+			in := structIns[g.r.Intn(len(structIns))]
+			w := &Stage{Name: g.upperName("WILD")}
+			for _, f := range g.p.Struct(in.Type.Name).Fields {
+				w.Ins = append(w.Ins, Param{Name: f.Name, Type: f.Type})
+			}
+			w.Outs = []Param{{Name: "wy", Type: TInt}}
+			w.SrcLang, w.Src = g.cfg.SrcFor(w.Name)
+			g.p.Stages = append(g.p.Stages, w)
+			wc := &Call{Callee: w.Name, Binds: []Binding{{Id: "*", Exp: &Exp{Kind: ERefSelf, Id: in.Name}}}}
+			pl.Calls = append(pl.Calls, wc)
+			names[wc.Name()] = true
+			env = append(env, envEntry{exp: &Exp{Kind: ERefCall, Id: wc.Name(), Path: []string{"wy"}}, typ: TInt, fromCall: wc.Name()})
+		} else if len(cands) > 0 {
 			c := cands[g.r.Intn(len(cands))]
 			_, outs, _, _ := g.p.Callable(c.Callee)
 			if g.pct(60) {
